@@ -3,7 +3,13 @@
 Space (all complete below the bound):
  * in-memory whitelists over ACGTN: every whitelist (as a set) of the stated sizes for length L, every
    expansion k in 0..2, EVERY query string of length L;
- * file level: every column layout x plain/gz x eager/lazy alias loading for a 3-barcode file;
+ * file level: every column layout x plain/gz x every lazyLoad form x k x accessor/lookup history used before the first
+   lookup for a 3-barcode file, with a sibling parser (other k, spaceFill=True) alive on the same directory and a decoy parser
+   (third k) on another directory whose files have the same names but other content;
+ * file formats: every column layout x line style (LF, no final newline, CRLF, trailing blank, repeated line) x plain/gz x
+   whitelist (incl. one barcode, every barcode with N) x index set (incl. index 0) x eager/lazy x k;
+ * expansion histories (fresh parser per case): every whitelist of the stated sizes x every non-decreasing sequence of
+   expand() calls x constructor k x index type x optional expand() arguments x lookups between the calls or not;
  * shipped whitelists (real barcodes/ and indices/ directories, loaded by the real constructor):
    every query string over ACGTN of the whitelist length.
 Oracle: brute-force nearest neighbour (numpy), written from the property statement.
@@ -18,27 +24,48 @@ import numpy as np
 
 ID = 'C03'
 RULE = ('every whitelist (set of barcodes over ACGTN) up to the size bound x k in 0..2 x every query of that length, '
-        'through BarcodeParser.addBarcode/expand/getIndexCorrectedBarcodeAndHammingDistance; file-level layouts x loading mode x accessor used before the first lookup; '
+        'through BarcodeParser.addBarcode/expand/getIndexCorrectedBarcodeAndHammingDistance; file-level layouts x lazyLoad form x accessor/lookup history '
+        'before the first lookup, answers of a sibling parser (other k, spaceFill=True) on the same directory, after a decoy parser (third k) on another '
+        'directory with same-named files of other content; file formats: layout x line style x '
+        'gz x whitelist x index set x load x k; expansion histories: whitelist x non-decreasing expand() sequence x constructor k x index type x '
+        'expand arguments x intermediate lookups (checked after every expand against that call\'s k); '
         'shipped whitelists against all 5^L queries. A case (whitelist,k) is non-trivial when at least one query is a '
         'tie that must be refused and at least one is corrected at distance >=1; states = (whitelist,k) pairs, '
         'transitions = lookups')
 ASSUMPTIONS = [
     'a whitelist is a set of equal-length barcodes over ACGTN (duplicate lines with different indices are not generated)',
     'cell indices in files are integers or names containing a character outside ACGTNX (as all shipped files)',
+    'files hold one barcode per line in one or two whitespace separated columns; blank lines, comment lines and extra columns are not '
+    'generated (the parser refuses or has no notion of them); a line may be repeated identically in two-column files',
+    'an alias is expanded by a non-decreasing sequence of expand() calls; the expansion in force is the k of the last call '
+    '(adding barcodes after an expansion and shrinking re-expansions are not generated: the property does not define them)',
 ]
 ALPHA = 'ACGTN'
 
 
 def bounds(tier):
+    file_level = {'layouts': LAYOUTS, 'gz': [False, True], 'load': LOADS, 'k': [0, 1, 2], 'whitelists': [list(w) for w in FILE_WLS],
+                  'history_before_first_lookup': PRES, 'sibling_parser': 'same directory, k+1 mod 3, spaceFill=True, same lazyLoad',
+                  'decoy_parser': 'another directory with same-named files of other content, k+2 mod 3, built and loaded first (file_formats too)',
+                  'combination': 'full product'}
+    formats = {'layouts': LAYOUTS, 'line_styles': FMTS, 'gz': [False, True], 'whitelists': [list(w) for w in FMT_WLS],
+               'index_sets': IDXSETS, 'load': ['eager', 'lazy_star'], 'k': [0, 1, 2] if tier != 'quick' else [1],
+               'combination': 'full product (repeated line not for the one-column layout)'}
+    hist = {'plans': [list(p) for p in PLANS], 'constructor_k': [0, 1, 2], 'index_types': IDXTYPES, 'expand_args': EXPAND_ARGS,
+            'lookups_between_expands': [False, True], 'fresh_parser_per_case': True}
     if tier == 'quick':
+        hist['whitelists'] = [{'L': 2, 'sizes': [1, 2], 'combination': 'plans x lookups-between x (constructor k | index type | expand arguments, each varied alone)'},
+                              {'L': 2, 'sizes': [3], 'combination': 'plans 1-2 and 0-1-2 with lookups between, other dimensions at their first value'}]
         return {'in_memory': [{'L': 3, 'sizes': [1, 2, 3], 'reduction': 'none'},
                               {'L': 4, 'sizes': [1], 'reduction': 'none'}],
-                'k': [0, 1, 2], 'file_level': 'all layouts', 'shipped': ['illumina_RP_indices (6 nt, 15625 queries)',
-                                                                        'DamID2_8bp k<=1 (390625 queries)']}
+                'k': [0, 1, 2], 'file_level': file_level, 'file_formats': formats, 'expansion_histories': hist,
+                'shipped': ['illumina_RP_indices (6 nt, 15625 queries)', 'DamID2_8bp k<=1 (390625 queries)']}
+    hist['whitelists'] = [{'L': 2, 'sizes': [1, 2, 3], 'combination': 'full product'},
+                          {'L': 3, 'sizes': [1, 2], 'combination': 'plans x lookups-between, other dimensions at their first value'}]
     return {'in_memory': [{'L': 3, 'sizes': [1, 2, 3], 'reduction': 'none'},
                           {'L': 4, 'sizes': [1, 2], 'reduction': 'none'},
                           {'L': 5, 'sizes': [1], 'reduction': 'none'}],
-            'k': [0, 1, 2], 'file_level': 'all layouts',
+            'k': [0, 1, 2], 'file_level': file_level, 'file_formats': formats, 'expansion_histories': hist,
             'shipped': 'every shipped barcodes/ and indices/ list over ACGTN of length <= 8 (k<=1; k=2 for lists <=96), all 5^L queries; DamID2 (10 nt) k<=1 all 5^10 queries'}
 
 
@@ -151,54 +178,158 @@ def compare(lookup, wl, indices, k, q_arr, q_strs, site='lookup'):
 
 
 # ------------------------------------------------------------------ file level
-LAYOUTS = ['bc_tab_idx', 'idx_tab_bc', 'idx_space_bc', 'onecol', 'name_tab_bc']
+# column layouts; the shipped lists use idx_tab_bc, idx_space_bc, onecol, name_tab_bc and bc_space_name
+LAYOUTS = ['bc_tab_idx', 'idx_tab_bc', 'idx_space_bc', 'onecol', 'name_tab_bc', 'bc_space_idx', 'bc_space_name']
+# forms of the lazyLoad argument (demux.py passes a tuple naming another alias)
+LOADS = ['eager', 'lazy_star', 'lazy_alias', 'lazy_tuple', 'lazy_other']
+# histories: other public accessors / lookups used before the first lookup of the alias
+PRES = ['none', 'getitem', 'getitem-other-alias', 'targetcount', 'list', 'mapping', 'lookups-other-alias',
+        'unknown-alias-and-other-length-queries']
+FILE_WLS = [('ACG', 'ACT', 'GGN'), ('AAA', 'CCC', 'TTT'), ('NAC', 'AAC', 'GTA')]
+# line styles: LF; last line without newline (shipped celseq2.bc, nla_bisulfite.bc); CRLF; a blank after every line; first line repeated
+FMTS = ['lf', 'nofinal', 'crlf', 'trail', 'dup']
+DECOY_ROWS = [(91, 'CAT'), (92, 'TTG'), (93, 'GAC'), (94, 'ACG')]
+FMT_WLS = FILE_WLS + [('NCA',), ('NAC', 'ANC', 'GTN'), ('AAA', 'AAC', 'CCG', 'TTN', 'GNG')]
+IDXSETS = [[7, 3, 12, 1, 40], [0, 10, 2, 5, 1]]
+
+
+def _lazy_arg(load):
+    return {'eager': None, 'lazy_star': '*', 'lazy_alias': ['mylist'], 'lazy_tuple': ('mylist', 'aaa_twin'),
+            'lazy_other': ('other', '10x_3M-february-2018')}[load]
 
 
 def file_cases():
     for layout in LAYOUTS:
         for gz in (False, True):
-            for lazy in ('eager', 'lazy_star', 'lazy_alias'):
+            for lazy in LOADS:
                 for k in (0, 1, 2):
-                    for wl in (('ACG', 'ACT', 'GGN'), ('AAA', 'CCC', 'TTT'), ('NAC', 'AAC', 'GTA')):
-                        # histories: other public accessors of the alias used before the first lookup
-                        for pre in ('none', 'getitem', 'getitem-other-alias', 'targetcount'):
+                    for wl in FILE_WLS:
+                        for pre in PRES:
                             yield {'kind': 'file', 'layout': layout, 'gz': gz, 'load': lazy, 'k': k, 'wl': list(wl), 'pre': pre}
+
+
+def fmt_cases(tier):
+    for layout in LAYOUTS:
+        for gz in (False, True):
+            for fmt in FMTS:
+                if fmt == 'dup' and layout == 'onecol':
+                    continue    # a repeated barcode gets two line numbers: not a whitelist in the sense of the property
+                for wl in FMT_WLS:
+                    for idxset in range(len(IDXSETS)):
+                        for lazy in ('eager', 'lazy_star'):
+                            for k in ((1,) if tier == 'quick' else (0, 1, 2)):
+                                yield {'kind': 'file', 'family': 'fmt', 'layout': layout, 'gz': gz, 'load': lazy, 'k': k,
+                                       'wl': list(wl), 'pre': 'none', 'fmt': fmt, 'idxset': idxset}
+
+
+def _write_list(path, layout, wl, idx, fmt, gz):
+    """write one whitelist file; returns the cell indices the property expects for wl"""
+    lines = []
+    for b, i in zip(wl, idx):
+        if layout == 'bc_tab_idx':
+            lines.append(f'{b}\t{i}')
+        elif layout == 'idx_tab_bc':
+            lines.append(f'{i}\t{b}')
+        elif layout == 'idx_space_bc':
+            lines.append(f'{i} {b}')
+        elif layout == 'bc_space_idx':
+            lines.append(f'{b} {i}')
+        elif layout == 'name_tab_bc':
+            lines.append(f'cell_{i}\t{b}')
+        elif layout == 'bc_space_name':
+            lines.append(f'{b} cell_{i}')
+        elif layout == 'onecol':
+            lines.append(b)
+        else:
+            raise ValueError(layout)
+    if layout == 'onecol':
+        want_idx = list(range(1, len(wl) + 1))
+    elif layout in ('name_tab_bc', 'bc_space_name'):
+        want_idx = [f'cell_{i}' for i in idx]
+    else:
+        want_idx = list(idx)
+    if fmt == 'dup':
+        lines.append(lines[0])
+    if fmt == 'trail':
+        lines = [ln + ' ' for ln in lines]
+    nl = '\r\n' if fmt == 'crlf' else '\n'
+    data = nl.join(lines) + ('' if fmt == 'nofinal' else nl)
+    # written as bytes: no newline translation by the harness
+    if gz:
+        with gzip.open(path, 'wb') as f:
+            f.write(data.encode())
+    else:
+        with open(path, 'wb') as f:
+            f.write(data.encode())
+    return want_idx
+
+
+def _pre_step(bp, pre, wl, want_idx, layout):
+    """one history step before the first lookup on alias mylist; returns a violation list"""
+    if pre == 'getitem':
+        mapping = bp['mylist']
+        if mapping is None or dict(mapping) != dict(zip(wl, want_idx)):
+            return [(f'file:{layout}:getitem-mapping-differs-from-file', {'got': None if mapping is None else dict(mapping)})]
+    elif pre == 'getitem-other-alias':
+        bp['other']
+    elif pre == 'targetcount':
+        bp.getTargetCount('mylist')
+    elif pre == 'list':
+        import contextlib
+        import io
+        with contextlib.redirect_stdout(io.StringIO()):
+            bp.list()
+            bp.list(showBarcodes=None)
+    elif pre == 'mapping':
+        bp.getBarcodeMapping()['mylist']
+        bp.getBarcodeMapping().get('aaa_twin')
+    elif pre == 'lookups-other-alias':
+        # every string on ANOTHER alias first (most are misses there): nothing learnt there may be used for mylist
+        for s in all_strings(3)[1]:
+            bp.getIndexCorrectedBarcodeAndHammingDistance(s, 'other')
+    elif pre == 'unknown-alias-and-other-length-queries':
+        bp.getIndexCorrectedBarcodeAndHammingDistance(wl[0], 'nosuchalias')
+        bp['nosuchalias']
+        bp.getTargetCount('nosuchalias')
+        # observed strings that are not of the whitelist length: their answer is not defined by the property and not checked;
+        # they only precede the checked lookups
+        for s in ('', wl[0][:-1], wl[0] + 'A', wl[0] + wl[0]):
+            bp.getIndexCorrectedBarcodeAndHammingDistance(s, 'mylist')
+    elif pre != 'none':
+        raise ValueError(pre)
+    return []
 
 
 def check_file(case):
     from singlecellmultiomics.barcodeFileParser.barcodeFileParser import BarcodeParser
     wl = tuple(case['wl'])
     layout = case['layout']
-    d = tempfile.mkdtemp(prefix='c03_', dir='/dev/shm')
+    fmt = case.get('fmt', 'lf')
+    family = case.get('family', 'file')
+    top = d = tempfile.mkdtemp(prefix='c03_', dir='/dev/shm')
     try:
-        idx = [7, 3, 12]
-        lines = []
-        for b, i in zip(wl, idx):
-            if layout == 'bc_tab_idx':
-                lines.append(f'{b}\t{i}')
-            elif layout == 'idx_tab_bc':
-                lines.append(f'{i}\t{b}')
-            elif layout == 'idx_space_bc':
-                lines.append(f'{i} {b}')
-            elif layout == 'name_tab_bc':
-                lines.append(f'cell_{i}\t{b}')
-            else:
-                lines.append(b)
-        if layout == 'onecol':
-            want_idx = [1, 2, 3]
-        elif layout == 'name_tab_bc':
-            want_idx = [f'cell_{i}' for i in idx]
-        else:
-            want_idx = idx
+        k = case['k']
+        lazy = _lazy_arg(case['load'])
+        # a decoy parser on ANOTHER directory whose files have the same names but other content (as the shipped
+        # barcodes/illumina_RP_indices.bc and indices/illumina_RP_indices.bc), third expansion value, built and loaded first:
+        # nothing of it may show up in the parsers below
+        dd = os.path.join(d, 'decoy')
+        os.mkdir(dd)
+        for fn, rows in (('mylist.bc', DECOY_ROWS), ('aaa_twin.bc', DECOY_ROWS[::-1]), ('other.bc', DECOY_ROWS[:1])):
+            with open(os.path.join(dd, fn), 'w') as f:
+                for ix, b in rows:
+                    f.write(f'{ix}\t{b}\n')
+        try:
+            decoy = BarcodeParser(barcodeDirectory=dd, hammingDistanceExpansion=(k + 2) % 3, lazyLoad=lazy)
+            for alias in ('mylist', 'aaa_twin', 'other'):
+                decoy.getIndexCorrectedBarcodeAndHammingDistance('CAT', alias)
+        except Exception as ex:
+            return [(f'{family}:decoy-parser:exception:{type(ex).__name__}', repr(ex))], (0, 0, 0)
+        d = os.path.join(d, 'lists')
+        os.mkdir(d)
+        idx = ([7, 3, 12] if 'idxset' not in case else IDXSETS[case['idxset']])[:len(wl)]
         name = 'mylist.bc' + ('.gz' if case['gz'] else '')
-        p = os.path.join(d, name)
-        data = '\n'.join(lines) + '\n'
-        if case['gz']:
-            with gzip.open(p, 'wt') as f:
-                f.write(data)
-        else:
-            with open(p, 'w') as f:
-                f.write(data)
+        want_idx = _write_list(os.path.join(d, name), layout, wl, idx, fmt, case['gz'])
         # a second, unrelated alias in the same directory: answers must not leak between aliases
         with open(os.path.join(d, 'other.bc'), 'w') as f:
             f.write('1\tTTT\n2\tGGG\n')
@@ -208,34 +339,107 @@ def check_file(case):
             for b, ix in zip(reversed(wl), twin_idx):
                 f.write(f'{ix}\t{b}\n')
         twin_wl = tuple(reversed(wl))
-        lazy = {'eager': None, 'lazy_star': '*', 'lazy_alias': ['mylist']}[case['load']]
+        k2 = (k + 1) % 3
         try:
-            bp = BarcodeParser(barcodeDirectory=d, hammingDistanceExpansion=case['k'], lazyLoad=lazy)
+            bp = BarcodeParser(barcodeDirectory=d, hammingDistanceExpansion=k, lazyLoad=lazy)
+            # a sibling parser on the SAME directory with another expansion and the unused spaceFill option set: two parser
+            # objects alive in one process must not share anything
+            sib = BarcodeParser(barcodeDirectory=d, hammingDistanceExpansion=k2, lazyLoad=lazy, spaceFill=True) if family == 'file' else None
         except Exception as ex:
-            return [(f'file:{layout}:constructor-exception:{type(ex).__name__}', repr(ex))], (0, 0, 0)
+            return [(f'{family}:{layout}:constructor-exception:{type(ex).__name__}', repr(ex))], (0, 0, 0)
         pre = case.get('pre', 'none')
         try:
-            if pre == 'getitem':
-                mapping = bp['mylist']
-                if mapping is None or dict(mapping) != dict(zip(wl, want_idx)):
-                    return [(f'file:{layout}:getitem-mapping-differs-from-file', {'got': None if mapping is None else dict(mapping)})], (0, 0, 0)
-            elif pre == 'getitem-other-alias':
-                bp['other']
-            elif pre == 'targetcount':
-                bp.getTargetCount('mylist')
+            v0 = _pre_step(bp, pre, wl, want_idx, layout)
+            if v0:
+                return v0, (0, 0, 0)
         except Exception as ex:
             return [(f'file:{layout}:accessor-exception:{type(ex).__name__}', repr(ex))], (0, 0, 0)
         q_arr, q_strs = all_strings(3)
-        site = f'file:{layout}' + ('' if pre == 'none' else f':after-{pre}')
-        v1, st1 = compare(lambda s: bp.getIndexCorrectedBarcodeAndHammingDistance(s, 'mylist'), wl, want_idx, case['k'],
+        # signatures name the configuration class: the layout for plain files and first lookups, else the line style / the history step
+        if family == 'fmt':
+            site = f'fmt:{layout}' if fmt == 'lf' else f'fmt:{fmt}'
+        else:
+            site = f'file:{layout}' if pre == 'none' else f'file:after-{pre}'
+        v1, st1 = compare(lambda s: bp.getIndexCorrectedBarcodeAndHammingDistance(s, 'mylist'), wl, want_idx, k,
                           q_arr, q_strs, site=site)
-        v2, st2 = compare(lambda s: bp.getIndexCorrectedBarcodeAndHammingDistance(s, 'aaa_twin'), twin_wl, twin_idx, case['k'],
-                          q_arr, q_strs, site=f'file:{layout}:twin-alias-with-same-barcodes')
-        v3, _ = compare(lambda s: bp.getIndexCorrectedBarcodeAndHammingDistance(s, 'mylist'), wl, want_idx, case['k'],
-                        q_arr, q_strs, site=site + ':after-twin-lookups')
-        return v1 + v2 + v3, (st1[0] + st2[0], st1[1], st1[2])
+        v2, st2 = compare(lambda s: bp.getIndexCorrectedBarcodeAndHammingDistance(s, 'aaa_twin'), twin_wl, twin_idx, k,
+                          q_arr, q_strs, site=f'{family}:{layout}:twin-alias-with-same-barcodes')
+        nq = st1[0] + st2[0]
+        if family == 'fmt':
+            return v1 + v2, (nq, st1[1], st1[2])
+        v3, _ = compare(lambda s: bp.getIndexCorrectedBarcodeAndHammingDistance(s, 'mylist'), wl, want_idx, k,
+                        q_arr, q_strs, site=f'file:{layout}:after-twin-lookups')
+        v4, st4 = compare(lambda s: sib.getIndexCorrectedBarcodeAndHammingDistance(s, 'mylist'), wl, want_idx, k2,
+                          q_arr, q_strs, site=f'file:{layout}:sibling-parser-other-k-spaceFill')
+        v6, _ = compare(lambda s: bp.getIndexCorrectedBarcodeAndHammingDistance(s, 'mylist'), wl, want_idx, k,
+                        q_arr, q_strs, site=f'file:{layout}:after-sibling-lookups')
+        return v1 + v2 + v3 + v4 + v6, (nq + st1[0] + st4[0] + st1[0], st1[1], st1[2])
     finally:
-        shutil.rmtree(d, ignore_errors=True)
+        shutil.rmtree(top, ignore_errors=True)
+
+
+# ------------------------------------------------------------------ expansion histories (fresh parser per case)
+# every non-decreasing sequence of expand() distances of length <= 2, the full ladder, and no call at all
+PLANS = [(), (0,), (1,), (2,), (0, 0), (1, 1), (2, 2), (0, 1), (0, 2), (1, 2), (0, 1, 2)]
+IDXTYPES = ['int-from-1', 'int-from-0', 'str-from-0']     # demux.py --si registers str(0), str(1), ...
+EXPAND_ARGS = ['default', 'reportCollisions=False,spaceFill=True']
+
+
+def hist_cases(wl, mode):
+    """mode 'full': plan x lookups-between x constructor k x index type x expand arguments;
+    'star': plan x lookups-between x (constructor k, index type, expand arguments: each varied alone, the others at their first value);
+    'plans': plan x lookups-between; 'ladders': the two strictly increasing plans that end at 2, with lookups between"""
+    for plan in PLANS:
+        if mode == 'ladders' and plan not in ((1, 2), (0, 1, 2)):
+            continue
+        for probe in ((True,) if mode == 'ladders' else (False, True) if len(plan) > 1 else (False,)):
+            for ctor_k in ((0, 1, 2) if (mode in ('full', 'star') and plan) else (0,)):
+                for idxtype in (IDXTYPES if mode in ('full', 'star') else IDXTYPES[:1]):
+                    for args in (EXPAND_ARGS if (mode in ('full', 'star') and plan) else EXPAND_ARGS[:1]):
+                        if mode == 'star' and (ctor_k != 0) + (idxtype != IDXTYPES[0]) + (args != EXPAND_ARGS[0]) > 1:
+                            continue
+                        yield {'kind': 'hist', 'wl': list(wl), 'plan': list(plan), 'probe': probe, 'ctor_k': ctor_k,
+                               'idx': idxtype, 'args': args}
+
+
+def check_hist(case):
+    from singlecellmultiomics.barcodeFileParser.barcodeFileParser import BarcodeParser
+    wl = tuple(case['wl'])
+    plan = case['plan']
+    n = len(wl)
+    indices = {'int-from-1': list(range(1, n + 1)), 'int-from-0': list(range(n)), 'str-from-0': [str(i) for i in range(n)]}[case['idx']]
+    kwargs = {} if case['args'] == 'default' else {'reportCollisions': False, 'spaceFill': True}
+    q_arr, q_strs = all_strings(len(wl[0]))
+    viols = []
+    stats = [0, 0, 0]
+
+    def probe(bp, k, site):
+        v, st = compare(lambda s: bp.getIndexCorrectedBarcodeAndHammingDistance(s, 'user'), wl, indices, k, q_arr, q_strs, site=site)
+        viols.extend(v)
+        stats[0] += st[0]
+        stats[1] = max(stats[1], st[1])
+        stats[2] = max(stats[2], st[2])
+    try:
+        bp = BarcodeParser(barcodeDirectory=_empty_dir(), hammingDistanceExpansion=case['ctor_k'])
+        for b, ix in zip(wl, indices):
+            bp.addBarcode(index=ix, barcodeFileAlias='user', barcode=b, hammingDistance=0, originBarcode=None)
+        for j, k in enumerate(plan):
+            bp.expand(k, alias='user', **kwargs)
+            if case['probe'] and j < len(plan) - 1:
+                probe(bp, k, 'hist:between-expands')
+    except Exception as ex:
+        return [(f'hist:expand:exception:{type(ex).__name__}', repr(ex))], (0, 0, 0)
+    site = 'hist:' + ('never-expanded' if not plan else 'expanded-once' if len(plan) == 1 else
+                      'expanded-again-same-k' if len(set(plan)) == 1 else 'expanded-again-larger-k')
+    if case['ctor_k'] and plan and case['ctor_k'] != plan[-1]:
+        site += ':constructor-k-differs'
+    probe(bp, plan[-1] if plan else 0, site)
+    return viols, tuple(stats)
+
+
+def _empty_dir():
+    """a directory name that does not exist: the constructor finds no files (as BarcodeParser() in demux.py --si)"""
+    return '/dev/shm/c03_no_such_parent/no_such_dir'
 
 
 # ------------------------------------------------------------------ shipped lists
@@ -335,6 +539,16 @@ def shards(tier):
     for li in range(len(LAYOUTS)):
         for gz in (False, True):
             out.append(('file', li, gz))
+            out.append(('fmt', li, gz))
+    # expansion histories: (L, size, full product of the minor dimensions?)
+    hist = ([(2, 1, 'star'), (2, 2, 'star'), (2, 3, 'ladders')] if tier == 'quick' else
+            [(2, 1, 'full'), (2, 2, 'full'), (2, 3, 'full'), (3, 1, 'plans'), (3, 2, 'plans')])
+    for L, size, full in hist:
+        if size == 1:
+            out.append(('hist', L, 1, None, full))
+        else:
+            for first in range(5 ** L - size + 1):
+                out.append(('hist', L, size, first, full))
     # one parser holding the whole indices/ directory (k=1, as the command line default): one shard, aliases in sequence
     out.append(('shipped-eager', 'indices', 1))
     if tier == 'quick':
@@ -381,9 +595,33 @@ def run_shard(shard, tier, acc):
             if case['layout'] != LAYOUTS[shard[1]] or case['gz'] != shard[2]:
                 continue
             viols, (nq, ncorr, ntie) = check_file(case)
-            acc.case(case, transitions=nq, nontrivial=(ncorr > 0), outcome=f"file:{case['layout']}:{case['pre']}")
+            acc.case(case, transitions=nq, nontrivial=(ncorr > 0), outcome=f"file:{case['layout']}:{case['load']}:{case['pre']}")
             for sig, d in viols:
                 acc.violation(sig, case, d)
+    elif kind == 'fmt':
+        for case in fmt_cases(tier):
+            if case['layout'] != LAYOUTS[shard[1]] or case['gz'] != shard[2]:
+                continue
+            viols, (nq, ncorr, ntie) = check_file(case)
+            acc.case(case, transitions=nq, nontrivial=(ncorr > 0), outcome=f"fmt:{case['layout']}:{case['fmt']}")
+            for sig, d in viols:
+                acc.violation(sig, case, d)
+    elif kind == 'hist':
+        _, L, size, first, full = shard
+        _, strs = all_strings(L)
+        if size == 1:
+            wls = [(s,) for s in strs]
+        else:
+            wls = [(strs[first],) + c for c in itertools.combinations(strs[first + 1:], size - 1)]
+        for wl in wls:
+            for case in hist_cases(wl, full):
+                viols, (nq, ncorr, ntie) = check_hist(case)
+                plan = case['plan']
+                acc.case(case, transitions=nq, nontrivial=(len(plan) > 1 and ncorr > 0 and ntie > 0),
+                         outcome='hist:plan=' + '-'.join(map(str, plan)) + (':probed' if case['probe'] else '')
+                                 + f":ctor={case['ctor_k']}:{case['idx']}:{case['args'].split(',')[0]}")
+                for sig, d in viols:
+                    acc.violation(sig, case, d)
     elif kind == 'shipped-eager':
         _, sub, k = shard
         # as demux.py: first a parser over the whole barcodes/ directory, then one over indices/, in ONE process; the two
@@ -415,6 +653,8 @@ def replay(case):
         return check_whitelist(tuple(case['wl']), case['k'])[0]
     if kind == 'file':
         return check_file(case)[0]
+    if kind == 'hist':
+        return check_hist(case)[0]
     if kind == 'shipped':
         return check_shipped(case)[0]
     raise ValueError(kind)
